@@ -21,7 +21,7 @@ META = {
         "C04.R3 bit/column layouts agree inside codec pairs (dts shifts/masks; dtm format order vs slices; device-id shift/masks/widths). "
         "C04.R4 sibling implementations agree (Address.convert_to_hex ≡ dev_id_to_hex_id, convert_from_hex ≡ hex_id_to_dev_id). "
         "C04.R5 no silent wrap: every fixed-width hex format in an encoder is range-bounded by a dominating raising guard, a mask, or by "
-        "construction. Not decided: exactness on the whole grid; text round-trip; flag8 bit order (values)."
+        "construction. C04.R6 a paired decoder's raw/K quotient reaches the return without a coarser round()/int()/floor division. Not decided: exactness on the whole grid; text round-trip; flag8 bit order (values)."
     ),
 }
 META["explanation"] += ' C04.R3 also: the DST flag is or-ed into the seconds octet on every path through hex_from_dtm (flow-sensitive column tracking) and the decoder masks it.'
@@ -87,6 +87,76 @@ def _sentinels_dec(f: FuncInfo) -> dict[str, str]:
     return out
 
 
+# decoder-only sentinels confirmed by reading (one line of reason each)
+DECODER_ONLY_SENTINELS = {
+    ("temp", "'31FF'"): "31FF is the wire's second not-available word (named as a sentinel in the property's anchor); 127.99 is outside any sensor's range",
+}
+
+
+def _numeric_image(ctx: Ctx, fe: FuncInfo) -> "tuple[int, int] | None":
+    """Unsigned interval of the words the encoder can write for numbers, from its raising range guard and constant scale factors
+    (`not lo <= value <= hi` -> raise; `round(value * K)`); None = unknown (treated as: every word of the width)."""
+    scales: list[float] = []
+    for n in own_nodes(fe.node):
+        if isinstance(n, ast.BinOp) and isinstance(n.op, ast.Mult):
+            for o in (n.left, n.right):
+                ks = [o.body, o.orelse] if isinstance(o, ast.IfExp) else [o]
+                vals = [k.value for k in ks if isinstance(k, ast.Constant) and isinstance(k.value, (int, float)) and not isinstance(k.value, bool)]
+                if len(vals) == len(ks):
+                    scales += vals
+    params = {a.arg for a in fe.node.args.args}
+    for st in fe.node.body:
+        if isinstance(st, ast.If) and any(isinstance(b, ast.Raise) for b in st.body):
+            for c in ast.walk(st.test):
+                if isinstance(c, ast.Compare) and len(c.ops) == 2 and all(isinstance(o, (ast.Lt, ast.LtE)) for o in c.ops) and isinstance(c.comparators[0], ast.Name):
+                    lo, hi = ctx.consts.eval_in(fe, c.left), ctx.consts.eval_in(fe, c.comparators[1])
+                    if not (isinstance(lo, (int, float)) and isinstance(hi, (int, float))):
+                        continue
+                    if c.comparators[0].id in params:  # guard on the unscaled value
+                        if lo < 0 or not scales:
+                            return None
+                        return int(lo * min(scales)), int(hi * max(scales)) + 1
+                    if lo < 0:
+                        return None  # two's complement: the whole width
+                    return int(lo), int(hi)
+    return None
+
+
+def _exclusive_upper_bounds(ctx: Ctx, f: FuncInfo, at: ast.stmt) -> "dict[str, int]":
+    """{copy-propagated expression text: K} for every `expr < K` known at `at` from raising/leaving guards around and before it
+    (`if not (0 <= e < K and ..): raise`, `if e < 0 or e >= K: raise`, nested ifs)."""
+    from .c05 import _implied_atoms
+    from .common import expand, facts_at
+
+    out: dict[str, int] = {}
+
+    def put(e: ast.expr, k: object, strict: bool) -> None:
+        if isinstance(k, int) and not isinstance(k, bool):
+            b = k if strict else k + 1
+            key = norm(e)
+            out[key] = min(out.get(key, b), b)
+
+    for test, val in facts_at(at):
+        t = expand(f.node, test, pure_only=False)
+        for a, holds in _implied_atoms(t, val):  # type: ignore[arg-type]
+            if not isinstance(a, ast.Compare):
+                continue
+            terms = [a.left] + list(a.comparators)
+            if holds:
+                for l, op, r in zip(terms, a.ops, terms[1:]):
+                    if isinstance(op, (ast.Lt, ast.LtE)):
+                        put(l, ctx.consts.eval_in(f, r) if not isinstance(r, ast.Constant) else r.value, isinstance(op, ast.Lt))
+                    elif isinstance(op, (ast.Gt, ast.GtE)):
+                        put(r, ctx.consts.eval_in(f, l) if not isinstance(l, ast.Constant) else l.value, isinstance(op, ast.Gt))
+            elif len(a.ops) == 1:
+                l, op, r = a.left, a.ops[0], a.comparators[0]
+                if isinstance(op, (ast.GtE, ast.Gt)):  # not (l >= K)  ->  l < K
+                    put(l, ctx.consts.eval_in(f, r) if not isinstance(r, ast.Constant) else r.value, isinstance(op, ast.GtE))
+                elif isinstance(op, (ast.LtE, ast.Lt)):  # not (K <= r)  ->  r < K
+                    put(r, ctx.consts.eval_in(f, l) if not isinstance(l, ast.Constant) else l.value, isinstance(op, ast.LtE))
+    return out
+
+
 def check(ctx: Ctx) -> list[RuleResult]:
     repo = ctx.repo
     out: list[RuleResult] = []
@@ -134,6 +204,27 @@ def check(ctx: Ctx) -> list[RuleResult]:
                 r2.ok({"pair": e, "sentinel": f"{py} <-> {wire}"})
             else:
                 r2.fail(f"hex_from_{e}:{py}->{wire}", fe.loc(), f"hex_from_{e}({py}) = {wire}, but hex_to_{d}({wire}) returns {sd.get(wire, 'a number')}: the sentinel does not survive the round trip")
+    # the other direction: a wire word the decoder maps to a sentinel, which the encoder does not produce for that sentinel, swallows the
+    # number the encoder writes as that word - unless the word lies outside the encoder's numeric image
+    for e, d in pairs:
+        fe, fd = repo.func(f"{H}.hex_from_{e}"), repo.func(f"{H}.hex_to_{d}")
+        se, sd = _sentinels_enc(fe), _sentinels_dec(fd)
+        lo_hi = _numeric_image(ctx, fe)
+        for wire, py in sd.items():
+            if se.get(py) == wire:
+                continue
+            r2.instances += 1
+            r2.nontrivial += 1
+            try:
+                w = int(ast.literal_eval(wire), 16)
+            except Exception:
+                w = None
+            if (e, wire) in DECODER_ONLY_SENTINELS:
+                r2.ok({"pair": e, "decoder_only_sentinel": wire, "accepted_because": DECODER_ONLY_SENTINELS[(e, wire)]})
+            elif w is not None and lo_hi is not None and not (lo_hi[0] <= w <= lo_hi[1]):
+                r2.ok({"pair": e, "decoder_only_sentinel": wire, "outside_encoder_image": f"{lo_hi[0]:X}..{lo_hi[1]:X}"})
+            else:
+                r2.fail(f"hex_to_{d}:{wire}->{py}", fd.loc(), f"hex_to_{d}({wire}) returns {py}, but hex_from_{e}({py}) = {se.get(py, 'a different word')} and {wire} is a word hex_from_{e} writes for a number: that number no longer survives the round trip")
     # dtm: "FF" * 6/7 <-> None
     fe, fd = repo.func(f"{H}.hex_from_dtm"), repo.func(f"{H}.hex_to_dtm")
     r2.instances += 1
@@ -267,49 +358,102 @@ def check(ctx: Ctx) -> list[RuleResult]:
             )
         else:
             r3.ok({"dtm_dst_flag": f"or-ed into columns {sec_cols} (seconds) on every path; decoder masks 0b1111111"})
-    # device ids
+    # device ids: the bit layout is read off the expressions (constant-folded masks/shifts), whatever the operands are called
+    from .common import expand as _expand
+
+    def _fold(f, e):
+        try:
+            return ctx.consts.eval_in(f, e)
+        except Exception:
+            return None
+
+    dec_layouts = []
+    dec_fields: dict = {}
+    enc_fields: dict = {}
     for qn in (f"{A}.hex_id_to_dev_id", f"{A}.Address.convert_from_hex"):
         f = repo.func(qn)
         r3.instances += 1
         r3.nontrivial += 1
-        txt = norm(f.node)
-        m1 = re.search(r"_tmp & (\d+)\) >> (\d+)", txt)
-        m2 = re.search(r"_tmp & (\d+)", txt.split(">>")[-1])
-        if m1 and m2 and int(m1.group(1)) == 0xFC0000 and int(m1.group(2)) == 18 and int(m2.group(1)) == 0x03FFFF and (0xFC0000 ^ 0x03FFFF) == 0xFFFFFF:
-            r3.ok({"decoder": f.short, "type_mask": "0xFC0000 >> 18", "id_mask": "0x03FFFF"})
+        type_fields, id_masks = [], []
+        for n in ast.walk(f.node):
+            if isinstance(n, ast.BinOp) and isinstance(n.op, ast.RShift) and isinstance(n.left, ast.BinOp) and isinstance(n.left.op, ast.BitAnd):
+                mk, sh = _fold(f, n.left.right), _fold(f, n.right)
+                if isinstance(mk, int) and isinstance(sh, int):
+                    type_fields.append((mk, sh))
+            elif isinstance(n, ast.BinOp) and isinstance(n.op, ast.BitAnd) and not isinstance(getattr(n, "parent", None), ast.BinOp):
+                mk = _fold(f, n.right)
+                if isinstance(mk, int):
+                    id_masks.append(mk)
+        # an `x & M` that is the left operand of `>>` was counted as a type field; the remaining plain masks are the id masks
+        id_masks = [m for m in id_masks if not any(m == tm for tm, _s in type_fields)] or [m for m in {_fold(f, n.right) for n in ast.walk(f.node) if isinstance(n, ast.BinOp) and isinstance(n.op, ast.BitAnd)} if isinstance(m, int) and not any(m == tm for tm, _s in type_fields)]
+        ok = bool(type_fields) and bool(id_masks) and all(tm == (0xFFFFFF ^ ((1 << sh) - 1)) for tm, sh in type_fields) and all(im == (1 << type_fields[0][1]) - 1 for im in id_masks) and len({sh for _tm, sh in type_fields}) == 1
+        dec_fields[qn] = (sorted(set(type_fields)), sorted(set(id_masks)))
+        if ok:
+            dec_layouts.append(type_fields[0][1])
+            r3.ok({"decoder": f.short, "type_field": f"(x & {type_fields[0][0]:#08X}) >> {type_fields[0][1]}", "id_mask": f"{id_masks[0]:#08X}", "complementary_over": "24 bits"})
         else:
-            r3.fail(f"{f.short}:masks", f.loc(), "the device-id decoder's masks are no longer (x & 0xFC0000) >> 18 and x & 0x03FFFF (complementary over 24 bits)")
+            r3.fail(f"{f.short}:masks", f.loc(), f"the device-id decoder's fields are not (x & M) >> s and x & ~M with complementary masks over 24 bits: type fields {type_fields}, id masks {id_masks}")
     for qn in (f"{A}.dev_id_to_hex_id", f"{A}.Address.convert_to_hex"):
         f = repo.func(qn)
         r3.instances += 1
         r3.nontrivial += 1
-        rets = [norm(n.value) for n in own_nodes(f.node) if isinstance(n, ast.Return) and n.value is not None and "<<" in norm(n.value)]
-        if rets and all("(int(dev_type) << 18) + int(device_id[-6:])" in r and ":0>6X" in r for r in rets):
-            r3.ok({"encoder": f.short, "expr": rets[0][:70]})
+        shifts, widths = [], []
+        for n in own_nodes(f.node):
+            if isinstance(n, ast.Return) and n.value is not None:
+                v = _expand(f.node, n.value, pure_only=False)
+                for x in ast.walk(v):
+                    if isinstance(x, ast.BinOp) and isinstance(x.op, ast.LShift):
+                        sh = _fold(f, x.right)
+                        if isinstance(sh, int):
+                            shifts.append(sh)
+                    if isinstance(x, ast.FormattedValue) and x.format_spec is not None:
+                        m = re.search(r"(\d+)X", norm(x.format_spec))
+                        if m:
+                            widths.append(int(m.group(1)))
+        # every field must be bounded by a dominating raising guard to its own width: a guard on the packed word alone lets a too-large
+        # number spill into the type bits (a different valid id)
+        for n in own_nodes(f.node):
+            if not (isinstance(n, ast.Return) and n.value is not None):
+                continue
+            v = _expand(f.node, n.value, pure_only=False)
+            for x in ast.walk(v):
+                if isinstance(x, ast.BinOp) and isinstance(x.op, (ast.Add, ast.BitOr)) and isinstance(x.left, ast.BinOp) and isinstance(x.left.op, ast.LShift):
+                    sh = _fold(f, x.left.right)
+                    if not isinstance(sh, int):
+                        continue
+                    ub = _exclusive_upper_bounds(ctx, f, n)
+                    for fld, expr, limit in (("type", x.left.left, 1 << (24 - sh)), ("number", x.right, 1 << sh)):
+                        r3.instances += 1
+                        r3.nontrivial += 1
+                        got = ub.get(norm(expr))
+                        if got is not None and got <= limit:
+                            r3.ok({"encoder": f.short, "field": fld, "expr": norm(expr), "guarded_below": got, "field_capacity": limit})
+                        else:
+                            r3.fail(f"{f.short}:{fld}-unbounded", f.loc(n), f"the {fld} field `{norm(expr)}` of the packed id is not bounded below {limit} by a raising guard (bound found: {got}): an out-of-range {fld} spills into the neighbouring field and becomes a different valid id")
+        enc_fields[qn] = sorted({norm(_expand(f.node, n.value, pure_only=False)) for n in own_nodes(f.node) if isinstance(n, ast.Return) and n.value is not None and any(isinstance(x, ast.LShift) for x in ast.walk(_expand(f.node, n.value, pure_only=False)))})
+        if shifts and widths and set(shifts) == {dec_layouts[0] if dec_layouts else 18} and set(widths) == {6}:
+            r3.ok({"encoder": f.short, "type_shift": shifts[0], "hex_width": 6})
         else:
-            r3.fail(f"{f.short}:shift", f.loc(), f"the device-id encoder is no longer (type << 18) + number formatted as 6 hex digits: {rets}")
+            r3.fail(f"{f.short}:shift", f.loc(), f"the device-id encoder does not place the type at bit {dec_layouts[0] if dec_layouts else 18} (where the decoder reads it) in a 6-hex-digit word: shifts {shifts}, widths {widths}")
     out.append(r3)
 
     # ---- R4 ---------------------------------------------------------------------------
     r4 = RuleResult("R4", "sibling implementations agree", "the two device-id encoders (and the two decoders) share their core expression", min_instances=2)
-    def core_returns(qn: str, marker: str) -> list[str]:
-        f = repo.func(qn)
-        return sorted({re.sub(r"\s*# .*", "", norm(n.value)) for n in own_nodes(f.node) if isinstance(n, ast.Return) and n.value is not None and marker in norm(n.value)})
+    # compared after copy propagation (a hoisted `n = int(dev_type)` is the same expression) and on folded masks/shifts
     r4.instances += 1
     r4.nontrivial += 1
-    e1, e2 = core_returns(f"{A}.dev_id_to_hex_id", "<<"), core_returns(f"{A}.Address.convert_to_hex", "<<")
+    e1, e2 = enc_fields.get(f"{A}.dev_id_to_hex_id"), enc_fields.get(f"{A}.Address.convert_to_hex")
     if e1 and e1 == e2:
         r4.ok({"encoders": e1})
     else:
         r4.fail("dev-id-encoders:disagree", repo.mod(A).rel, f"dev_id_to_hex_id returns {e1} but Address.convert_to_hex returns {e2}")
     r4.instances += 1
     r4.nontrivial += 1
-    d1 = sorted(set(re.findall(r"_tmp & \d+(?:\) >> \d+)?", norm(repo.func(f"{A}.hex_id_to_dev_id").node))))
-    d2 = sorted(set(re.findall(r"_tmp & \d+(?:\) >> \d+)?", norm(repo.func(f"{A}.Address.convert_from_hex").node))))
-    if d1 and d1 == d2:
-        r4.ok({"decoders": d1})
+    d1, d2 = dec_fields.get(f"{A}.hex_id_to_dev_id"), dec_fields.get(f"{A}.Address.convert_from_hex")
+    if d1 and d1[0] and d1 == d2:
+        r4.ok({"decoders": {"type_fields(mask,shift)": d1[0], "id_masks": d1[1]}})
     else:
-        r4.fail("dev-id-decoders:disagree", repo.mod(A).rel, f"hex_id_to_dev_id uses {d1} but Address.convert_from_hex uses {d2}")
+        r4.fail("dev-id-decoders:disagree", repo.mod(A).rel, f"hex_id_to_dev_id uses (type fields, id masks) {d1} but Address.convert_from_hex uses {d2}")
     out.append(r4)
 
     # ---- R5 ---------------------------------------------------------------------------
@@ -332,6 +476,60 @@ def check(ctx: Ctx) -> list[RuleResult]:
                     else:
                         r5.fail(f"{g.short}:{norm(n.value)[:40]}:{spec}", g.loc(n), f"`{{{norm(n.value)[:50]}:{spec}}}` in {g.short} has no range guard: a value that does not fit {width} hex digits is silently widened/wrapped into a different valid wire value")
     out.append(r5)
+
+    # ---- R6 ---------------------------------------------------------------------------
+    r6 = RuleResult("R6", "decoders keep the wire grid", "a paired decoder's `raw / K` reaches its return without a coarser round()/int()/floor-division", min_instances=4)
+    sched = repo.func("ramses_rf.system.schedule.fragz_to_full_sched")
+    decoders = [repo.func(f"{H}.hex_to_{d}") for d in ("temp", "percent", "double")] + list(sched.nested.values())
+    for f in decoders:
+        divs = [n for n in own_nodes(f.node) if isinstance(n, ast.BinOp) and isinstance(n.op, (ast.Div, ast.FloorDiv))]
+        if not divs:
+            continue
+        ks: set[int] = set()
+        unknown_k = False
+        for dv in divs:
+            cand = [dv.right.body, dv.right.orelse] if isinstance(dv.right, ast.IfExp) else [dv.right]
+            for c in cand:
+                k = _fold(f, c) if not isinstance(c, ast.Constant) else c.value
+                if isinstance(k, int) and not isinstance(k, bool):
+                    ks.add(k)
+                else:
+                    unknown_k = True
+        # names that carry the quotient
+        tainted: set[str] = set()
+        changed = True
+        def _carries(e: ast.AST) -> bool:
+            return any(x in divs or (isinstance(x, ast.Name) and x.id in tainted) for x in ast.walk(e))
+        while changed:
+            changed = False
+            for n in own_nodes(f.node):
+                tgt = None
+                if isinstance(n, (ast.Assign, ast.AnnAssign, ast.AugAssign)) and n.value is not None and _carries(n.value):
+                    tg = n.targets[0] if isinstance(n, ast.Assign) else n.target
+                    tgt = tg.id if isinstance(tg, ast.Name) else None
+                elif isinstance(n, ast.NamedExpr) and _carries(n.value):
+                    tgt = n.target.id
+                if tgt and tgt not in tainted:
+                    tainted.add(tgt)
+                    changed = True
+        r6.instances += 1
+        r6.nontrivial += 1
+        bad = []
+        for n in own_nodes(f.node):
+            if isinstance(n, ast.BinOp) and isinstance(n.op, ast.FloorDiv) and (n in divs or _carries(n.left)):
+                bad.append((n, "floor division"))
+            if isinstance(n, ast.Call) and isinstance(n.func, ast.Name) and n.func.id in ("int", "round") and n.args and _carries(n.args[0]) and n.func.id == "int":
+                bad.append((n, "int() truncates the quotient"))
+            if isinstance(n, ast.Call) and isinstance(n.func, ast.Name) and n.func.id == "round" and n.args and _carries(n.args[0]):
+                nd = 0 if len(n.args) < 2 else (n.args[1].value if isinstance(n.args[1], ast.Constant) else None)
+                if isinstance(nd, int) and not unknown_k and any((10 ** nd) % k for k in ks):
+                    bad.append((n, f"round(.., {nd}) is coarser than the 1/{max(ks)} wire grid"))
+        if bad:
+            for n, why in bad:
+                r6.fail(f"{f.short}:{why.split()[0]}", f.loc(n), f"`{norm(n)[:70]}` in {f.short}: {why}: distinct wire words decode to the same value, so a value on the wire grid does not survive the round trip")
+        else:
+            r6.ok({"decoder": f.short, "divisors": sorted(ks) + (["<parameter>"] if unknown_k else []), "quotient_carried_by": sorted(tainted)})
+    out.append(r6)
     return out
 
 
@@ -416,8 +614,52 @@ def _bounded(ctx: Ctx, g: FuncInfo, top: FuncInfo, v: ast.expr, width: int) -> s
         return "byte | flag"
     if isinstance(v, ast.Call) and norm(v.func) == "ord":
         return "ord() of a character (checked by the caller's regex for ASCII)" if width >= 2 else None
-    if isinstance(v, ast.Call) and norm(v.func) == "sum" and "<<" in txt and "enumerate" in txt:
-        return "sum of 8 shifted bits"
+    def _len_guard(bits: int) -> bool:
+        """a raising guard that pins the number of flags (`len(x) != 8` -> raise)"""
+        for st in top.node.body:
+            if isinstance(st, ast.If) and any(isinstance(b, ast.Raise) for b in st.body):
+                for c in ast.walk(st.test):
+                    if isinstance(c, ast.Compare) and isinstance(c.left, ast.Call) and norm(c.left.func) == "len" and any(isinstance(k, ast.Constant) and k.value == bits for k in c.comparators):
+                        return True
+        return False
+
+    def _elem_guard() -> bool:
+        """a raising guard that pins every flag to {0, 1}: `any(x not in (0, 1) for x in flags)` / `not all(x in (0, 1) ...)` -> raise"""
+        for st in top.node.body:
+            if isinstance(st, ast.If) and any(isinstance(b, ast.Raise) for b in st.body):
+                for c in ast.walk(st.test):
+                    if isinstance(c, ast.Call) and norm(c.func) in ("any", "all") and c.args and isinstance(c.args[0], (ast.GeneratorExp, ast.ListComp)):
+                        elt = c.args[0].elt
+                        if isinstance(elt, ast.Compare) and len(elt.ops) == 1 and isinstance(elt.ops[0], (ast.In, ast.NotIn)) and isinstance(elt.comparators[0], (ast.Tuple, ast.Set, ast.List)):
+                            vals = [k.value for k in elt.comparators[0].elts if isinstance(k, ast.Constant)]
+                            if len(vals) == len(elt.comparators[0].elts) and set(vals) <= {0, 1, True, False} and (norm(c.func) == "any") == isinstance(elt.ops[0], ast.NotIn):
+                                return True
+        return False
+
+    def _shifted_enum(e: ast.expr, idx_names: set[str]) -> bool:
+        return isinstance(e, ast.BinOp) and isinstance(e.op, ast.LShift) and isinstance(e.right, ast.Name) and e.right.id in idx_names
+
+    if isinstance(v, ast.Call) and norm(v.func) == "sum" and v.args and isinstance(v.args[0], (ast.GeneratorExp, ast.ListComp)):
+        comp = v.args[0]
+        gen = comp.generators[0]
+        if isinstance(gen.iter, ast.Call) and norm(gen.iter.func) == "enumerate" and isinstance(gen.target, ast.Tuple) and isinstance(gen.target.elts[0], ast.Name) and _shifted_enum(comp.elt, {gen.target.elts[0].id}) and _len_guard(width * 4) and _elem_guard():
+            return f"sum of {width * 4} shifted flags (length and element range pinned by raising guards)"
+    if isinstance(v, ast.Name):
+        # the loop form of the same sum: acc = 0; for idx, x in enumerate(..): acc = acc + (x << idx)  /  acc += x << idx  /  acc |= x << idx
+        defs = [n for n in own_nodes(g.node) if (isinstance(n, ast.Assign) and any(isinstance(t, ast.Name) and t.id == v.id for t in n.targets)) or (isinstance(n, ast.AugAssign) and isinstance(n.target, ast.Name) and n.target.id == v.id)]
+        inits = [d for d in defs if isinstance(d, ast.Assign) and isinstance(d.value, ast.Constant) and d.value.value == 0]
+        steps = [d for d in defs if d not in inits]
+        def _step_ok(d: ast.stmt) -> bool:
+            loop = getattr(d, "parent", None)
+            if not (isinstance(loop, ast.For) and isinstance(loop.iter, ast.Call) and norm(loop.iter.func) == "enumerate" and isinstance(loop.target, ast.Tuple) and isinstance(loop.target.elts[0], ast.Name)):
+                return False
+            idx = {loop.target.elts[0].id}
+            if isinstance(d, ast.AugAssign):
+                return isinstance(d.op, (ast.Add, ast.BitOr)) and _shifted_enum(d.value, idx)
+            val = d.value
+            return isinstance(val, ast.BinOp) and isinstance(val.op, (ast.Add, ast.BitOr)) and ((norm(val.left) == v.id and _shifted_enum(val.right, idx)) or (norm(val.right) == v.id and _shifted_enum(val.left, idx)))
+        if len(inits) == 1 and steps and all(_step_ok(d) for d in steps) and _len_guard(width * 4) and _elem_guard():
+            return f"loop-accumulated sum of {width * 4} shifted flags (length and element range pinned by raising guards)"
     # calendar fields by construction
     if isinstance(v, ast.Name) and v.id in ("sec", "min", "hour", "mday", "mon", "year") and g.name == "_dtm_to_hex":
         return "calendar field (timetuple)"
